@@ -4,7 +4,7 @@ spec:   spec/ResponseEmit.tla       case -> emission state machine (RenderFails,
                                     StreamSendChunk, CloseStream, Eof, SseNext, SseSend) + the property clauses
         spec/MC_ResponseEmit.tla    bounded case tables (one initial state per case), JSON export of every behaviour
         spec/ResponseEmitTrace.tla  trace judge: the same clause operators evaluated on recorded observations
-legs:   M  exhaustive TLC check of the emission design over the whole case table (+ the five wrong-design
+legs:   M  exhaustive TLC check of the emission design over the whole case table (+ the six wrong-design
            switches must each break their invariant)
         A  every behaviour TLC exported is replayed on the real falcon.App / falcon.asgi.App under the independent
            PEP 3333 / ASGI monitors of engine.drivers, with scheduled render / stream / send faults; the observation is
@@ -24,7 +24,9 @@ META = {
                   'TLC computed; random responses beyond the table are judged by TLC with the same clause operators.',
     'level_note': 'Bounded: table of 3.7e4 (quick) / 4.0e5 (thorough) cases, <= 3 stream items (bytes, empty, None), SSE scripts '
                   'of <= 4 items (events and None pings in every position); random leg <= 5 items, 18 status codes, 6 '
-                  'methods. Status spellings: int, registry line, own-reason line, http.HTTPStatus, bare code string, bytes '
+                  'methods. A client disconnect after k items is explored for every SSE script (plain-header, int-status '
+                  'cases). Application histories (decoy values overwritten / unset, early public render_body() calls between '
+                  'the assignments) are a harness dimension: the specification speaks about the final attribute values. Status spellings: int, registry line, own-reason line, http.HTTPStatus, bare code string, bytes '
                   'line, bytes code (the last three with plain headers and without data in the table; everywhere in the '
                   'random leg, also set by error handlers and raised HTTPStatus/HTTPError). Extra headers carry str/int/float values through set_header, append_header, set_headers (dict '
                   'and pairs), a typed property, HTTPStatus(headers=) and (random leg) HTTPError(headers=). Stream/send fault points are explored for int-status, '
@@ -38,6 +40,7 @@ META = {
 }
 
 import asyncio
+import inspect
 import http
 import json
 import re
@@ -50,6 +53,9 @@ APP_CT = 'application/json; c05=app'      # the application's own type; resolvab
 BODILESS_CODES = (100, 101, 204, 304)
 SPEC_ACTIONS = ['RenderFails', 'SendStart', 'SendBody', 'SendEmpty', 'StreamRead', 'StreamSendChunk', 'CloseStream', 'Eof',
                 'SseNext', 'SseSend']
+# application histories on one response before its final attribute values (see fill())
+HISTORIES = [None, None, {'media_first': True}, {'renders': [1]}, {'decoy': True}, {'renders': [0, 3], 'decoy': True},
+             {'media_first': True, 'renders': [2]}]
 VARIANTS = [{'custom': cu, 'extra': ex, 'via': via} for cu in (False, True) for ex in (False, True)
             for via in ('responder', 'mw_request', 'mw_response', 'http_status')]
 
@@ -279,7 +285,10 @@ async def sse_emitter(script, log, fail_at, ping=None):
     """script: one entry per item, 1 = an SSEvent, 0 = a keep-alive ping (None)"""
     from falcon.asgi import SSEvent
     src = _Base([(SSEvent(data=sse_data(i)) if x else ping) for i, x in enumerate(script)], Log(), fail_at)
+    case = CUR['case']
     while True:
+        if case['fk'] == 'disc' and src.k == case['fa'] and CUR.get('disc') is not None:
+            CUR['disc'].set()                      # the client disconnects after fa items were produced
         try:
             b = src._next()
         except StreamFault:
@@ -370,17 +379,36 @@ def fill(resp, is_asgi):
                 steps.append(lambda: setattr(resp, 'content_length', case['cl']))
         if stream is not None:
             steps.append(lambda: setattr(resp, 'stream', stream))
+    # the application's history on this response before the final attribute values (the precedence rule speaks
+    # about the final values): decoy values that are overwritten / unset again, and early calls of the public
+    # render_body() - e.g. a middleware computing an ETag - between the assignments
+    hist = var.get('hist') or {}
+    if case['fk'] == 'render' or case['code'] in (204, 304):
+        hist = {}           # (an early public render of media stores the default media type: not judged on 204/304)
+    decoy = bool(hist.get('decoy')) and not by_status
+    pre = []
+    if decoy:
+        pre = [lambda: setattr(resp, 'text', '<decoy text>'), lambda: setattr(resp, 'data', b'<decoy data>'),
+               lambda: setattr(resp, 'media', {'decoy': True}), lambda: resp.render_body(),
+               lambda: setattr(resp, 'text', None), lambda: resp.render_body()]
     if case['text'] >= 0 and not by_status:
         steps.append(lambda: setattr(resp, 'text', text_payload(case['text'])))
+    elif decoy:
+        steps.append(lambda: setattr(resp, 'text', None))
     if case['data'] >= 0:
         steps.append(lambda: setattr(resp, 'data', data_payload(case['data'])))
+    elif decoy:
+        steps.append(lambda: setattr(resp, 'data', None))
+    if decoy and case['media'] < 0:
+        steps.append(lambda: setattr(resp, 'media', None))
     render_media = case['fk'] == 'render' and var.get('render_mode') == 'media'
     if render_media and not (case['text'] < 0 and case['data'] < 0 and case['media'] >= 0):
         raise MachineryError('render fault through the media needs a case in which the media is rendered')
     if case['media'] >= 0:
         media = RaisingMedia(log, HandledRenderFault if var.get('err_handler') else RenderFault) if render_media \
             else media_payload(case['media'])
-        steps.append(lambda: setattr(resp, 'media', media))
+        media_step = lambda: setattr(resp, 'media', media)
+        steps.append(media_step)
     if is_asgi and case['sse'] >= 0:
         steps.append(lambda: setattr(resp, 'sse', sse_emitter(case['sk'], log, fail_at)))
     if var['extra']:
@@ -397,8 +425,13 @@ def fill(resp, is_asgi):
     order = var.get('order')
     if order:
         steps = _permute(steps, order)
-    for s in steps:
-        s()
+    if hist.get('media_first') and case['media'] >= 0:
+        steps.remove(media_step)                   # media, render_body(), then everything else (data, text, ...)
+        steps = [media_step, lambda: resp.render_body()] + steps
+    for p in hist.get('renders', ()):
+        steps.insert(p % (len(steps) + 1), lambda: resp.render_body())
+    for s in pre + steps:
+        yield s()                                  # on ASGI render_body() gives an awaitable: the caller awaits it
     if case['fk'] == 'render' and var.get('render_mode') == 'http_error':
         # the responder gives up after filling the response: handled like a render-phase fault (the response is
         # re-filled by the handler of HTTPError and rendered), with header values of the error's own
@@ -458,18 +491,21 @@ def get_app(iface, custom):
         class Res:
             def _any(self, req, resp):
                 if CUR['variant']['via'] in ('responder', 'http_status'):
-                    fill(resp, False)
+                    for _ in fill(resp, False):
+                        pass
             on_get = on_head = on_post = on_put = on_delete = on_patch = _any
 
         class Mw:
             def process_request(self, req, resp):
                 if CUR['variant']['via'] == 'mw_request':
-                    fill(resp, False)
+                    for _ in fill(resp, False):
+                        pass
                     resp.complete = True
 
             def process_response(self, req, resp, resource, req_succeeded):
                 if CUR['variant']['via'] == 'mw_response':
-                    fill(resp, False)
+                    for _ in fill(resp, False):
+                        pass
 
         app = falcon.App(middleware=[Mw()], response_type=CustomResponse if custom else None) if custom \
             else falcon.App(middleware=[Mw()])
@@ -484,18 +520,24 @@ def get_app(iface, custom):
         class ARes:
             async def _any(self, req, resp):
                 if CUR['variant']['via'] in ('responder', 'http_status'):
-                    fill(resp, True)
+                    for r in fill(resp, True):
+                        if inspect.isawaitable(r):
+                            await r
             on_get = on_head = on_post = on_put = on_delete = on_patch = _any
 
         class AMw:
             async def process_request(self, req, resp):
                 if CUR['variant']['via'] == 'mw_request':
-                    fill(resp, True)
+                    for r in fill(resp, True):
+                        if inspect.isawaitable(r):
+                            await r
                     resp.complete = True
 
             async def process_response(self, req, resp, resource, req_succeeded):
                 if CUR['variant']['via'] == 'mw_response':
-                    fill(resp, True)
+                    for r in fill(resp, True):
+                        if inspect.isawaitable(r):
+                            await r
 
         inner = falcon.asgi.App(middleware=[AMw()], response_type=CustomAsgiResponse) if custom \
             else falcon.asgi.App(middleware=[AMw()])
@@ -514,6 +556,9 @@ def get_app(iface, custom):
                 if first[0]:
                     first[0] = False
                     return await receive()
+                if CUR.get('disc') is not None:           # the client goes away when the harness says so
+                    await CUR['disc'].wait()
+                    return {'type': 'http.disconnect'}
                 await asyncio.get_running_loop().create_future()
             await inner(scope, blocking_receive, send)
     _APPS[key] = app
@@ -549,6 +594,7 @@ def execute(case, variant):
     if case['fk'] == 'render' and variant.get('render_mode') not in ('media', 'http_error') and not variant['custom']:
         raise MachineryError('a render fault raised by render_body() needs the custom response class')
     CUR['case'], CUR['variant'], CUR['log'] = case, variant, log
+    CUR['disc'] = asyncio.Event() if case['fk'] == 'disc' else None
     app = get_app(case['iface'], variant['custom'])
     req = drivers.Req(method=case['method'], target=b'/r')
     ev = []
@@ -668,7 +714,10 @@ def compare_with_behaviour(b, obs):
     complete = not faulted
     bodiless_flagged = False
     if complete:
-        if b['precreq'] and obs['pieces'] != b['full']:
+        if case['fk'] == 'disc':
+            if obs['pieces'] != b['full'][:len(obs['pieces'])]:
+                P('Precedence', 'body %r is not a prefix of %r' % (obs['pieces'], b['full']))
+        elif b['precreq'] and obs['pieces'] != b['full']:
             bodiless_flagged = bool(b['bodiless'] and obs['pieces'])
             P('BodilessHaveNoBytes' if bodiless_flagged else 'Precedence',
               'body consists of %r, the chosen source %r prescribes %r' % (obs['pieces'], b['chosen'], b['full']))
@@ -771,10 +820,15 @@ def random_case(rng):
         case['fk'], case['fa'] = 'send', rng.randint(0 if iface == 'asgi' else 1, len(chunks) + 3)
     elif t < 0.65:
         case['fk'], case['fa'] = 'render', rng.choice((1, 1, 2))
+    elif case['sse'] >= 0 and t < 0.85:
+        case['fk'], case['fa'] = 'disc', rng.randint(0, case['sse'])       # the client disconnects mid-stream
     variant = {'custom': rng.random() < 0.3, 'extra': rng.random() < 0.4,
                'via': rng.choice(('responder', 'responder', 'mw_request', 'mw_response', 'http_status')),
                'set_stream': rng.random() < 0.5, 'cl_header': rng.random() < 0.5, 'none_end': rng.random() < 0.3,
                'plain_list': rng.random() < 0.5, 'order': [rng.randrange(16) for _ in range(rng.randint(0, 10))]}
+    if rng.random() < 0.4:
+        variant['hist'] = {'decoy': rng.random() < 0.4, 'media_first': rng.random() < 0.4,
+                           'renders': [rng.randrange(12) for _ in range(rng.randint(0, 3))]}
     if case['fk'] == 'render':
         render_variant(case, variant, rng.random() < 0.5)
         variant['err_handler'] = rng.random() < 0.3          # the application's own handler takes the fault
@@ -845,7 +899,7 @@ def _run(ctx):
     # vacuity: each wrong-design switch must break its invariant
     for sw, inv in (('RenderSetsType', 'TypelessHaveNoFrameworkType'), ('BodilessByLine', None),
                     ('ForgetCloseOnFault', 'CloseExactlyOnceOnceBegun'), ('StaleLengthOnRenderFault', 'LengthConsistent'),
-                    ('StatusStringAsIs', 'StatusLineWellFormed')):
+                    ('StatusStringAsIs', 'StatusLineWellFormed'), ('ReturnOnDisconnect', 'OnlyLastHasNoMoreBody')):
         rv = ctx.tlc('MC_ResponseEmit', 'MC_ResponseEmit_%s.cfg' % sw, workers=4, timeout=300, must_hold=False, count=False)
         if not rv.violated or (inv and rv.violated != inv):
             raise MachineryError('wrong-design switch %s: expected invariant %s to fail, TLC reported %r'
@@ -873,6 +927,10 @@ def _run(ctx):
         for j, variant in enumerate(vs):
             if case['fk'] == 'render':
                 variant = render_variant(case, dict(variant), (i + j + ctx.seed) % 2 == 0)
+            else:
+                h = HISTORIES[(i // 3 + j + ctx.seed) % len(HISTORIES)]
+                if h:
+                    variant = dict(variant, hist=h)
             obs = execute(case, variant)
             ctx.case({'case': case, 'variant': variant}, nontrivial=nontrivial(case), key=hash((repr(case), repr(variant))))
             check_against(ctx, bs, variant, obs)
